@@ -23,14 +23,16 @@ pub struct Case {
     /// false: in-memory devices, true: Writer::from_path + shapefile::read(path) / Reader::from_path
     pub disk: bool,
     pub ops: Vec<POp>,
+    /// in-memory .shp / .shx destinations already hold longer stale content (a reused buffer)
+    pub prefill: bool,
 }
 
 impl Case {
     pub fn to_json(&self) -> Value {
-        json!({"ty": self.ty.name(), "disk": self.disk, "ops": pops_name(&self.ops)})
+        json!({"ty": self.ty.name(), "disk": self.disk, "ops": pops_name(&self.ops), "prefill": self.prefill})
     }
     pub fn from_json(v: &Value) -> Option<Case> {
-        Some(Case { ty: Ty::from_name(v.get("ty")?.as_str()?)?, disk: v.get("disk")?.as_bool()?, ops: pops_from_name(v.get("ops")?.as_str()?)? })
+        Some(Case { ty: Ty::from_name(v.get("ty")?.as_str()?)?, disk: v.get("disk")?.as_bool()?, ops: pops_from_name(v.get("ops")?.as_str()?)?, prefill: v.get("prefill").and_then(|x| x.as_bool()).unwrap_or(false) })
     }
 }
 
@@ -62,6 +64,9 @@ pub fn observe(pal: &Palette, case: &Case) -> Obs {
         let dir = super::c01_c02::scratch_dir();
         let tid: String = format!("{:?}", std::thread::current().id()).chars().filter(|c| c.is_ascii_digit()).collect();
         let path = dir.join(format!("c08-{}.shp", tid));
+        for ext in ["shp", "shx", "dbf"] {
+            std::fs::write(path.with_extension(ext), vec![0xEEu8; 70_000]).expect("prefill");
+        }
         {
             let mut w = shapefile::Writer::from_path(&path, table::builder()).expect("create files");
             let mut rs = vec![];
@@ -100,6 +105,10 @@ pub fn observe(pal: &Palette, case: &Case) -> Obs {
         }
     } else {
         let env = PEnv::new();
+        if case.prefill {
+            env.shp.0.borrow_mut().data = vec![0xEE; 5000];
+            env.shx.0.borrow_mut().data = vec![0xEE; 3000];
+        }
         results = exec_complete(pal, &case.ops, &env);
         shp = env.shp.data();
         shx = env.shx.data();
@@ -157,10 +166,16 @@ pub fn judge(pal: &Palette, case: &Case, o: &Obs) -> Vec<(String, String)> {
         .collect();
     let n = accepted.len();
     let rejected_rows: Vec<&POp> = case.ops.iter().filter(|o| o.row_rejected()).collect();
-    // entry counts, read by the harness itself
-    let df = codec::decode_file(&o.shp, &DecodeOpts { strict: true });
+    // entry counts, read by the harness itself (with stale content behind the new files a
+    // Write + Seek destination cannot be truncated: what the headers declare is judged)
+    let decl = |b: &[u8]| b.get(24..28).map(|x| i32::from_be_bytes(x.try_into().unwrap()) as i64 * 2).filter(|l| *l >= 100 && *l as usize <= b.len()).map(|l| l as usize);
+    let (shp_v, shx_v): (&[u8], &[u8]) = match (case.prefill, decl(&o.shp), decl(&o.shx)) {
+        (true, Some(a), Some(b)) => (&o.shp[..a], &o.shx[..b]),
+        _ => (&o.shp[..], &o.shx[..]),
+    };
+    let df = codec::decode_file(shp_v, &DecodeOpts { strict: true });
     let n_shp = df.as_ref().map(|d| d.records.len() as i64).unwrap_or(-1);
-    let n_shx = codec::decode_shx(&o.shx).map(|(_, e)| e.len() as i64).unwrap_or(-1);
+    let n_shx = codec::decode_shx(shx_v).map(|(_, e)| e.len() as i64).unwrap_or(-1);
     // a table that never received a row is never given a header by dbase's writer until drop: it still is a valid empty table
     let n_dbf = table::dbf_declared_rows(&o.dbf).map(|x| x as i64).unwrap_or(-1);
     let counts_ok = n_shp == n as i64 && n_shx == n as i64 && n_dbf == n as i64;
@@ -182,10 +197,10 @@ pub fn judge(pal: &Palette, case: &Case, o: &Obs) -> Vec<(String, String)> {
                     _ => None,
                 })
                 .collect();
-            if let Some(c) = crate::oracle::shp_holds_exactly(&o.shp, case.ty, &expect) {
+            if let Some(c) = crate::oracle::shp_holds_exactly(shp_v, case.ty, &expect) {
                 out.push((format!("{}:shp-content-after-rejected-row", route), c));
             }
-            if let Err(e) = crate::oracle::shx_matches_shp(&o.shp, &o.shx) {
+            if let Err(e) = crate::oracle::shx_matches_shp(shp_v, shx_v) {
                 out.push((format!("{}:shx-content-after-rejected-row", route), e));
             }
             out.push((
@@ -205,12 +220,12 @@ pub fn judge(pal: &Palette, case: &Case, o: &Obs) -> Vec<(String, String)> {
     }
     // byte-level content of .shp / .shx
     let handed: Vec<MRead> = accepted.iter().map(|(k, _)| pal.built[*k].clone()).collect();
-    if let Some(c) = crate::oracle::shp_holds_exactly(&o.shp, case.ty, &handed) {
+    if let Some(c) = crate::oracle::shp_holds_exactly(shp_v, case.ty, &handed) {
         if !(n == 0 && c.starts_with("header-type")) {
             out.push((format!("{}:shp-content", route), c));
         }
     }
-    if let Err(e) = crate::oracle::shx_matches_shp(&o.shp, &o.shx) {
+    if let Err(e) = crate::oracle::shx_matches_shp(shp_v, shx_v) {
         out.push((format!("{}:shx-content", route), e));
     }
     // the complete reader returns exactly the accepted pairs
@@ -260,7 +275,7 @@ fn enabled(h: &Hist) -> Vec<u8> {
 }
 
 fn selftest(pals: &[Palette], types: &[Ty]) -> (u64, u64) {
-    let case = Case { ty: types[1], disk: false, ops: vec![POp::Good(0), POp::BadType, POp::Good(1), POp::Good(0)] };
+    let case = Case { ty: types[1], disk: false, ops: vec![POp::Good(0), POp::BadType, POp::Good(1), POp::Good(0)], prefill: false };
     let pal = &pals[1];
     if !judge(pal, &case, &observe(pal, &case)).is_empty() {
         return (1, 0);
@@ -313,6 +328,7 @@ pub fn check(tier: Tier) -> i32 {
     for t in 0..types.len() as u8 {
         inits.push(vec![t, 0]);
         inits.push(vec![t, 1]);
+        inits.push(vec![t, 2]);
     }
     let (p2, ty2) = (pals.clone(), types.clone());
     let disk_depth = 3;
@@ -320,9 +336,9 @@ pub fn check(tier: Tier) -> i32 {
         inits,
         CFG,
         depth,
-        Arc::new(move |h| if h[1] == 1 && h.len() - CFG >= disk_depth { vec![] } else { enabled(h) }),
+        Arc::new(move |h| if h[1] >= 1 && h.len() - CFG >= disk_depth { vec![] } else { enabled(h) }),
         Arc::new(move |h, ctx| {
-            let case = Case { ty: ty2[h[0] as usize], disk: h[1] == 1, ops: h[CFG..].iter().map(|b| POPS[*b as usize]).collect() };
+            let case = Case { ty: ty2[h[0] as usize], disk: h[1] == 1, ops: h[CFG..].iter().map(|b| POPS[*b as usize]).collect(), prefill: h[1] == 2 };
             let pal = &p2[h[0] as usize];
             let mut hh = Fnv::new();
             hh.bytes(h);
@@ -351,8 +367,8 @@ pub fn check(tier: Tier) -> i32 {
     // record-count ladder around powers of two: all-success histories, far beyond the explorer's depth
     let mut ladder_ctx = Ctx::new();
     for (ti, ty) in types.iter().enumerate().take(3) {
-        for n in [255usize, 256, 257, 1023, 1024, 1025, 2049] {
-            let case = Case { ty: *ty, disk: n == 1025, ops: (0..n).map(|i| POp::Good(((i * 5 + i / 3) % 2) as u8)).collect() };
+        for n in crate::structs::COUNT_LADDER {
+            let case = Case { ty: *ty, disk: n == 1025, ops: (0..n).map(|i| POp::Good(((i * 5 + i / 3) % 2) as u8)).collect(), prefill: n == 257 };
             let mut hh = Fnv::new();
             hh.str(&format!("ladder{}{}", ty.name(), n));
             match catch(|| observe(&pals[ti], &case)) {
@@ -382,7 +398,7 @@ pub fn check(tier: Tier) -> i32 {
             tier,
             level: "model_checking",
             engine: "E1 stateright BFS over write-call histories on the real complete Writer (three instrumented devices / from_path), read back with the real complete Reader",
-            rule: "every history up to the depth bound over {OkA, OkB, BadType, RowMissingField, RowWrongType, RowWrongFirstField} (first call accepted), rows carry the position of their call; in memory to the full depth, through Writer::from_path + shapefile::read / Reader::from_path to depth 3; plus all-success histories of 255..2049 pairs (record-count ladder around powers of two, 1025 also by path); non-trivial = >= 2 calls",
+            rule: "every history up to the depth bound over {OkA, OkB, BadType, RowMissingField, RowWrongType, RowWrongFirstField} (first call accepted), rows carry the position of their call; in memory to the full depth, through Writer::from_path + shapefile::read / Reader::from_path (over paths that already hold longer files) and into in-memory buffers that already hold longer stale content, both to depth 3; plus all-success histories of 255..2049 pairs (record-count ladder around powers of two, 1025 also by path); non-trivial = >= 2 calls",
             bounds: json!({"depth": depth, "disk_depth": disk_depth, "types": types.iter().map(|t| t.name()).collect::<Vec<_>>(), "alphabet": POPS.iter().map(|p| p.name()).collect::<Vec<_>>()}),
             exhaustive: true,
             assumptions: vec!["dbf tables without deleted rows; entry counts are read by the harness from the raw bytes (RefCodec scan, .shx parse, .dbf header bytes 4..8)".into()],
